@@ -50,6 +50,13 @@ def scenario_files(u, root: str) -> dict:
         r = t["reexp"]
         local = n["alias"] if r["form"] == "alias" else n["decl"]
         imp = f"from {'.'.join([root, sid, *tpath[:r['at']]])} import {local}"
+    sec = u.get("second", {}).get("segs") or []
+    if sec:        # a second, unrelated package re-exports the class by name too
+        for j in range(1, len(sec)):
+            files.setdefault("/".join([sid, *sec[:j], "__init__.py"]), "")
+        files["/".join([sid, *sec, "__init__.py"])] = f"from {'.'.join([root, sid, *tpath, n['stem']])} import {n['decl']}\n"
+        # a package is only analysed when it contains a module of its own
+        files["/".join([sid, *sec, "fillmod.py"])] = f"def fill{topo.sfx(u['id'])}() -> int:\n    ...\n"
     h = "holder" + topo.sfx(u["id"])
     body = {"param": f"def {h}(x: {local}) -> int:\n    ...\n", "result": f"def {h}() -> {local}:\n    ...\n",
             "attr": f"class {h}:\n    at: {local}\n", "super": f"class {h}({local}):\n    pass\n",
@@ -113,16 +120,16 @@ def run_obs(r, scen_by_id, nc) -> dict:
                 u = scen_by_id.get(int(m.group(1))) if m else None
                 if u is not None:
                     refs.append({"name": x["name"], "pos": x["pos"], "tparam": x["tparam"], "kind": "u3",
-                                 "sc": {"t": u["t"], "via": u["via"], "own": u["own"] and "ownref" in rel or (u["own"] and "refmod" not in rel)}})
+                                 "sc": {"t": u["t"], "via": u["via"], "second": u.get("second", {}).get("segs") or [], "own": u["own"] and "ownref" in rel or (u["own"] and "refmod" not in rel)}})
                 else:
                     refs.append({"name": x["name"], "pos": x["pos"], "tparam": x["tparam"],
-                                 "kind": ("generic-foreign" if x["args"] else "foreign") + ":" + x["pos"], "sc": {"t": None_T, "via": "def", "own": False}})
+                                 "kind": ("generic-foreign" if x["args"] else "foreign") + ":" + x["pos"], "sc": {"t": None_T, "via": "def", "own": False, "second": []}})
         imports = []
         for frm, name, alias in f.imports:
             m = SFX.search(name)
             u = scen_by_id.get(int(m.group(1))) if m else None
             imports.append({"from": frm, "name": alias or name, "kind": "u3" if u else "foreign",
-                            "sc": {"t": u["t"], "via": u["via"], "own": False} if u else {"t": None_T, "via": "def", "own": False}})
+                            "sc": {"t": u["t"], "via": u["via"], "own": False, "second": u.get("second", {}).get("segs") or []} if u else {"t": None_T, "via": "def", "own": False, "second": []}})
         files.append({"rel": rel, "package": f.package, "decls": decls, "imports": imports, "refs": refs})
     return {"files": files, "nc": nc, "unparsable": sorted(stubs.errors)}
 
